@@ -3,6 +3,7 @@ import GormModel.Model.Assoc
 open Lean
 namespace Gorm.Drv
 open Gorm.Assoc
+namespace HC12
 
 def parseNatList (j : Json) : Option (List Nat) := do
   (← jArr? j).toList.mapM jNat?
@@ -45,7 +46,11 @@ def runObs (r : Rel) (os : List Nat) : List Op → St → List Json
     let s' := step r os op { s with log := [] }
     obsJ r os op s' :: runObs r os ops s'
 
-/-- ["assoc.run", {cls, card1, owners, links, targets, next, ops}] -> one observation per step -/
+end HC12
+
+open HC12 in
+/-- ["assoc.run", {cls, card1, owners, links, targets, next, ops}] -> one observation per step;
+    ["assoc.ck", linked tuples, named tuples] -> composite-key upsert dedupe / Delete clean-up -/
 def handleC12 (op : String) (args : Array Json) : Option Json := do
   match op with
   | "assoc.run" =>
